@@ -543,7 +543,7 @@ impl Axecutor {
     pub fn reg_write_64(&mut self, reg: SupportedRegister, value: u64) -> Result<(), AxError> {
         let r: Register = reg.into();
         assert_fatal!(
-            r.is_gpr64() || r.is_ip(),
+            r.is_gpr64() || r == Register::RIP,
             "{:?} is not a valid 64-bit register",
             r
         );
@@ -625,7 +625,7 @@ impl Axecutor {
     pub fn reg_read_64(&self, reg: SupportedRegister) -> Result<u64, AxError> {
         let r: Register = reg.into();
         assert_fatal!(
-            r.is_gpr64() || r.is_ip(),
+            r.is_gpr64() || r == Register::RIP,
             "{:?} is not a valid 64-bit register",
             r
         );
